@@ -313,6 +313,21 @@ class Holder:
         self.count = 0
 
 
+def f_lists(xs, a, b):
+    st = []
+    for x in xs:
+        st.append(sorted([x + 2, x, x + 1], key=lambda v: -v))
+        st[-1].append(x * 10)
+    heads = [s[:-1] for s in st]
+    lasts = [s[-1] for s in st]
+    flat = [a] + [v * 2 for v in xs]
+    txt = ", ".join(str(o) for o in xs) + "|" + "; ".join([str(o) for o in list(xs)])
+    q = abs(a) // abs(b)
+    if (a < 0) != (b < 0):
+        q = -q
+    return heads, lasts, flat, txt, q, xs[::2], list(reversed(xs))
+
+
 def f_holder(names):
     h = Holder()
     got = [h.add(Base(n)) for n in names]
@@ -331,7 +346,8 @@ CASES = [("f_order", lambda m: [m.Base("v")]), ("f_mro", lambda m: ["q", 4]), ("
          ("f_match", lambda m: ["zz"]), ("f_classattr", lambda m: [3]),
          ("f_memo2", lambda m: [[(1, 2), (2, 1), (1, 2), (-1, 2), (2, 2)]]), ("f_set", lambda m: [[3, 1, 3, 2, 1]]), ("f_objs", lambda m: [1]), ("f_objs", lambda m: [2]),
          ("f_fmt", lambda m: [255, "ab"]), ("f_fmt", lambda m: [0, "x"]), ("f_cmp", lambda m: [1, 2, 3]), ("f_cmp", lambda m: [2, 2, 0]), ("f_while", lambda m: [3]),
-         ("f_while", lambda m: [9]), ("f_nested", lambda m: [{"a": 1, "bb": 2, "c": 3, "skip": 4}]), ("f_holder", lambda m: [["x", "y", "x", "z"]])]
+         ("f_while", lambda m: [9]), ("f_nested", lambda m: [{"a": 1, "bb": 2, "c": 3, "skip": 4}]), ("f_holder", lambda m: [["x", "y", "x", "z"]]),
+         ("f_lists", lambda m: [[3, 1, 2], -7, 2]), ("f_lists", lambda m: [[], 7, -2]), ("f_lists", lambda m: [[5], -9, -4])]
 
 
 def _norm(v, depth=0):
